@@ -492,7 +492,7 @@ static void run_vnadata(ctx_t *c, const char *b, int n)
 		/* (NPD only: it is the family that carries every type and
 		   dimension; a Touchstone loader may read what the Touchstone
 		   saver does not write, e.g. five ports in version 1) */
-		if (c->seed->format == F_NPD &&
+		if (c->format == F_NPD &&
 			vnadata_cksave(A, "as-loaded.npd") != 0) {
 		    vf_fail(r, "resave:as-loaded", "loaded object cannot be "
 			    "saved as NPD again with "
